@@ -244,8 +244,8 @@ def factory_case(ctx, index: int, rng: random.Random):
     else:
         data = [_value(rng, w, 0.0, centre, rng.choice([3, 20, 100]))[0] for _ in range(n)]
         kw = {"bin_width": w} if method == "fixed_width" else {"bin_count": rng.randint(1, 30)}
-    if len(set(data)) < 2:
-        data[0] = data[0] + 3 * w
+    if max(data) - min(data) < w:
+        data[0] = data[0] + 3 * w  # a range far below the bin width (values a few ulps apart) is degenerate for bin-count based rules
     desc = {"method": method, "kw": kw, "data": gen.hexlist(data)}
     try:
         h = physt.h1(np.asarray(data), method, **kw)
